@@ -933,3 +933,79 @@ def r19_division_guarded_by_its_zero_test(ck, P, rid='C11-R19'):
                 ck.violation(R, fn, 'division ahead of the zero test', '%s divides by a value (%s) that it compares with 0.0 to refuse singular input, but the division is not behind that test (the test looks at the quotient, or comes later): 1 / 0 is infinity, the comparison with 0 fails, and the function reports success with infinities and NaNs in the result' % (fn, d.loc()), d.loc())
     if n == 0:
         raise AnalysisBroken('%s: no division by a zero-tested value found in pixman-matrix.c' % rid)
+
+
+def r20_matrix_unit_keeps_no_state(ck, P, rid='C11-R20'):
+    """Who-may-write: the transform arithmetic is a set of pure functions of their arguments.  Nothing in pixman-matrix.c writes a global
+    or thread-local object: a remembered result (a cache keyed on the argument) is only as good as its key, and the in-place idiom
+    invert (&m, &m) overwrites the key's source before the key is taken."""
+    R = ck.rule(rid, 'no function of pixman-matrix.c stores into a global or thread-local variable, and no such variable that is not constant exists in the unit: with a one-entry cache of the last inversion, an in-place pixman_transform_invert records (inverse -> inverse), and the next inversion of that matrix returns its input as its own inverse with TRUE', floor=20)
+    u = P.units.get('pixman-matrix.c')
+    if u is None:
+        raise AnalysisBroken('%s: pixman-matrix.c not compiled' % rid)
+    n = 0
+    for fn, f in sorted(u.functions.items()):
+        n += 1; ck.saw(f)
+        bad = None
+        for x in f.insts():
+            if x.op == 'store' and f.root(f.path(x.a[1]))[0] == 'global':
+                bad = x
+            if x.op == 'call' and isinstance(x.callee, str) and x.callee.startswith(('llvm.memcpy', 'llvm.memmove', 'llvm.memset')) and f.root(f.path(x.a[0]))[0] == 'global':
+                bad = x
+        if bad is None:
+            ck.ok(R, '%s: writes no global' % fn)
+        else:
+            ck.violation(R, fn, 'state kept in the matrix unit', '%s writes to the global or thread-local object %s (%s): the result of a transform function then depends on earlier calls, not only on its arguments' % (fn, f.root(f.path(bad.a[1] if bad.op == 'store' else bad.a[0]))[1], bad.loc()), bad.loc())
+    if n == 0:
+        raise AnalysisBroken('%s: no function in pixman-matrix.c' % rid)
+
+
+def r21_product_elements_are_sums_of_products(ck, P, rid='C11-R21'):
+    """T-AGR: every one of the nine elements that pixman_transform_multiply stores is the (range-tested) sum of three products of an
+    element of each factor - also in the bottom row.  An element copied from one factor is the product's element only when the other
+    factor's row is (0, 0, 1), which an 'affine' test of one factor does not establish for the other."""
+    R = ck.rule(rid, 'every value pixman_transform_multiply stores into an element of the result (directly or through its local copy) is computed from multiplications - its slice contains a 64-bit product of two loaded elements - never a bare copy of an element of one factor: copying the bottom row of l when r is affine is wrong as soon as l is projective (l[2][0] or l[2][1] non-zero), and skips the overflow test of that row', floor=1)
+    fs = [f for f in P.functions() if f.name == 'pixman_transform_multiply']
+    if not fs:
+        raise AnalysisBroken('%s: pixman_transform_multiply not found' % rid)
+    n = 0
+    for f in fs:
+        # a block copy into a part of the local result (a row copied from a factor) is a bare copy as well; the final copy of the
+        # whole local result into *dst is not: its source is the local result itself
+        for x in f.insts():
+            if x.op == 'call' and isinstance(x.callee, str) and x.callee.startswith(('llvm.memcpy', 'llvm.memmove', 'memcpy', 'memmove')):
+                dpa, spa = f.path(x.a[0]), f.path(x.a[1])
+                if 'pixman_transform.matrix' in str(dpa[1]) and f.root(dpa)[0] == 'alloca' and f.root(spa)[0] == 'arg':
+                    n += 1; ck.saw(f)
+                    ck.violation(R, f.name, 'element of the product copied from a factor', '%s copies part of a factor into the result (%s) instead of computing those elements: the copied row is the product\'s row only for special shapes of the *other* factor, and its overflow test is skipped' % (f.name, x.loc()), x.loc())
+        for x in f.insts():
+            if x.op != 'store' or x.ty not in ('void',) and False:
+                continue
+            if x.op != 'store':
+                continue
+            pa = f.path(x.a[1])
+            if 'pixman_transform.matrix' not in str(pa[1]) or f.root(pa)[0] not in ('alloca', 'arg'):
+                continue
+            if x.a[0][0] != 'v':
+                continue
+            n += 1; ck.saw(f)
+            has_mul = False
+            work = [x.a[0]]; seen = set()
+            while work:
+                o = work.pop()
+                y = f.v(o) if o and o[0] == 'v' else None
+                if y is None or y.i in seen:
+                    continue
+                seen.add(y.i)
+                if y.op == 'mul' and y.ty == 'i64':
+                    has_mul = True; break
+                if y.op in ('load', 'call'):
+                    continue
+                work.extend(q for q in y.a if q)
+            where = '%s: element stored at %s' % (f.name, x.loc())
+            if has_mul:
+                ck.ok(R, where, 'sum of products')
+            else:
+                ck.violation(R, f.name, 'element of the product copied from a factor', '%s stores an element of the result (%s) that is not computed from any product: it is copied from one of the factors, which equals the product\'s element only for special shapes of the *other* factor' % (f.name, x.loc()), x.loc())
+    if n == 0:
+        raise AnalysisBroken('%s: no element store found in pixman_transform_multiply' % rid)
